@@ -81,6 +81,9 @@ where
         }
     }
 
+    // One cap per reduction step: the verifier indexes both the caps and the betas derived
+    // from them by step number.
+    ensure!(commit_phase_merkle_caps.len() == params.reduction_arity_bits.len());
     ensure!(final_poly.len() == params.final_poly_len());
 
     Ok(())
